@@ -67,6 +67,9 @@ func (S *LevelDbStore) GetCertRevocationStatus(issuer *pkix.RDNSequence, certSer
 		if err != nil {
 			return nil, fmt.Errorf("could not deserialize revoked cert: %v", err)
 		}
+	} else if !errors.Is(err, leveldb.ErrNotFound) {
+		//only "not found" means not revoked, any other error means the status can not be determined
+		return nil, fmt.Errorf("could not read revocation status: %v", err)
 	}
 	return &core.RevocationStatus{
 		Revoked:             revoked,
